@@ -72,6 +72,19 @@ func (f *FaultCache) Snapshot() []CacheCall {
 	return append([]CacheCall{}, f.Calls...)
 }
 
+// CreatePruneID / ApplyPrune are counted ("CreatePruneID", "ApplyPrune" when called, "ApplyPrune.done" when applied).
+func (f *FaultCache) CreatePruneID(ctx context.Context, name string, force bool) (string, error) {
+	f.record("CreatePruneID", nil, 0, 0)
+	return f.Client.CreatePruneID(ctx, name, force)
+}
+
+func (f *FaultCache) ApplyPrune(ctx context.Context, name, id string) error {
+	f.record("ApplyPrune", nil, 0, 0)
+	err := f.Client.ApplyPrune(ctx, name, id)
+	f.record("ApplyPrune.done", nil, 0, 0)
+	return err
+}
+
 func (f *FaultCache) Modify(ctx context.Context, name string, opts *cache.Opts, dels [][]string, upds []*cache.Update) error {
 	c := f.record("Modify", opts, len(dels), len(upds))
 	if f.Before != nil {
